@@ -25,6 +25,8 @@ for pid in ids:
     })
 na = [{"property_id": pid, "reason": M.NOT_APPLICABLE.get(pid, "check not built yet in this session (work in progress); planned design in DESIGN.md section 3")}
       for pid in ids if pid not in M.CHECKS]
+for e in M.ENGINES:
+    e["serves_properties"] = [c["property_id"] for c in checks if e["name"] in c["engine"].split("+")]
 man = {
     "version": 1,
     "setup_cmd": "./setup.sh",
